@@ -40,6 +40,13 @@ def main():
         consts = module_consts(mod) if mod.exists() else {}
         if consts.get('LEVEL_TEXT') and consts.get('CLAIM', True):
             text, note, ref = consts['LEVEL_TEXT'], consts.get('LEVEL_NOTE', ''), consts.get('DESIGN_REF', '')
+            if consts.get('TRANSPORT'):
+                tmod, tnames = consts['TRANSPORT']
+                text += (' Transport to formula TEXTS in a compiled workbook (tokenizer -> parser -> compile -> evaluator, the '
+                         'integrated pipeline model): ' + tmod.split('.')[-1] + '.' + ', '.join(tnames) + ' in lean/XlVerif/Props/X01.lean, '
+                         're-built and audited by this check and counted as obligations when they check (that module depends on every '
+                         "property's model: if it does not build, the evidence says so and this property's own theorems and "
+                         'formula-route correspondence decide).')
             checks.append({
                 'property_id': pid,
                 'quick_cmd': f'./check {pid} --tier quick',
